@@ -1,3 +1,4 @@
+import KitModel.Generated.C05
 /-
 Executable model of the run loop of `cron.Cron` (/repo/cron/cron.go: Schedule, Remove, Entries,
 Start, run, startJob, Stop).  Core Lean only.
@@ -14,6 +15,15 @@ The loop variable `now` is kept exactly as the code keeps it: it is the value re
 channel (the clock value at the instant the timer fired, which is stale if the clock moved on
 before the loop ran) or `c.now()` after an add/remove.  The timer is armed for
 `entries[0].Next.Sub(now)`, i.e. its deadline is `clock-at-arming + (Next - now)`.
+
+T1: the branches whose shape has plausible variants in the source are stated over the facts
+regenerated from cron/cron.go on every run (`KitModel/Generated/C05.lean`, abbreviated `G`):
+whether the add / remove branches and the top of the outer loop execute `now = c.now()`
+(`G.addRefreshesNow`, `G.removeRefreshesNow`, `G.armRefreshesNow`) and the argument of
+`e.Schedule.Next(…)` in the wake-up loop (`G.wakeNextArg`).  The remaining shape (channel
+capacities, select cases and exits, break condition, statement order, Stop, startJob, the job
+waiter, hook sites, and the full canonical text of every function) is pinned by
+`source_shape_as_modelled` in `KitProofs/Props/C05.lean` against `KitModel/CronSchedShape.lean`.
 
 Schedules are arbitrary functions: `S sid t` is `Schedule.Next(t)` of the schedule with index
 `sid`; time `0` is Go's zero `time.Time` ("never").  All theorems quantify over `S`.
@@ -167,13 +177,18 @@ def sortBT : List Entry → List Entry
 
 /-- `for _, e := range c.entries { if e.Next.After(now) || e.Next.IsZero() { break } … }`.
 Returns the updated entries and the entries (old values) whose job was started. -/
+def wakeNextBasis (now : Nat) (e : Entry) : Nat :=
+  match Kit.Generated.C05.wakeNextArg with
+  | .now => now
+  | .prev => e.next   -- `e.Prev` right after `e.Prev = e.Next`
+
 def wakeLoop (S : Scheds) (now : Nat) : List Entry → List Entry × List Entry
   | [] => ([], [])
   | e :: rest =>
     if now < e.next ∨ e.next = 0 then (e :: rest, [])
     else
       let r := wakeLoop S now rest
-      ({ e with prev := e.next, next := S e.sid now } :: r.1, e :: r.2)
+      ({ e with prev := e.next, next := S e.sid (wakeNextBasis now e) } :: r.1, e :: r.2)
 
 def launchJob (w : Nat) (e : Entry) : Job := { eid := e.id, act := e.next, wake := w, st := .launched }
 def runRec (w c : Nat) (e : Entry) : Rec := .run e.id e.sid e.next w c
@@ -237,17 +252,20 @@ def step (S : Scheds) (s : State) : Label → Option State
     | _ => none
   | .refresh =>
     match s.pc with
-    | .refresh none => some { s with now := s.clock, pc := .arm }
+    | .refresh none =>
+      some { s with now := if Kit.Generated.C05.removeRefreshesNow then s.clock else s.now, pc := .arm }
     | .refresh (some (id, sid)) =>
-      let e : Entry := { id := id, sid := sid, next := S sid s.clock, prev := 0 }
-      some { s with now := s.clock, entries := s.entries ++ [e], pc := .arm,
-                    log := schedRec s.clock e :: s.log }
+      let t := if Kit.Generated.C05.addRefreshesNow then s.clock else s.now
+      let e : Entry := { id := id, sid := sid, next := S sid t, prev := 0 }
+      some { s with now := t, entries := s.entries ++ [e], pc := .arm,
+                    log := schedRec t e :: s.log }
     | _ => none
   | .arm =>
     match s.pc with
     | .arm =>
+      let now := if Kit.Generated.C05.armRefreshesNow then s.clock else s.now
       let es := sortBT s.entries
-      some { s with entries := es, pc := .parked (armTimer s.clock s.now es) }
+      some { s with now := now, entries := es, pc := .parked (armTimer s.clock now es) }
     | _ => none
   | .wake =>
     match s.pc with
